@@ -223,3 +223,24 @@ Definition scalar_args (o : op) : bool :=
   | FlashPattern p _ => forallb entry_ok p
   | _ => true
   end.
+
+(* ---------------- specification vocabulary (used by Props/C19_led.v) ---------------- *)
+
+(* 0 <= brightness <= 255, on exactly when brightness > 0 *)
+Definition Inv_led (s : led) : Prop :=
+  (0 <= bright s <= 255)%Z /\ lit s = (0 <? bright s)%Z.
+
+(* the i-th channel of each recorded level *)
+Definition chan (i : nat) (lv : list (list Z)) : list Z := map (fun l => nth i l 0%Z) lv.
+
+Fixpoint mono_le (l : list Z) : Prop :=
+  match l with
+  | a :: ((b :: _) as t) => (a <= b)%Z /\ mono_le t
+  | _ => True
+  end.
+
+Fixpoint mono_ge (l : list Z) : Prop :=
+  match l with
+  | a :: ((b :: _) as t) => (b <= a)%Z /\ mono_ge t
+  | _ => True
+  end.
